@@ -65,7 +65,8 @@ fn o_from_bytes(b: &[u8]) -> Result<RistrettoRangeProof, tari_bulletproofs_plus:
 struct Member { statement: RangeStatement<P>, proof: RistrettoRangeProof, blindings: Vec<Scalar>, seeded: bool }
 
 // honest (statement, proof) for `m` commitments of `bits` bits, extension degree d, capacity cap, optional seed
-fn make_member(rng: &mut ChaCha12Rng, bits: usize, m: usize, cap: usize, d: usize, seed: bool, promise: Option<u8>, ctx: &'static [u8]) -> Result<Member, String> {
+// statement and witness drawn deterministically from `rng` (the same draws whether or not a proof is made afterwards)
+fn make_statement(rng: &mut ChaCha12Rng, bits: usize, m: usize, cap: usize, d: usize, seed: bool, promise: Option<u8>) -> Result<(RangeStatement<P>, RangeWitness, Vec<Scalar>), String> {
     let pc = create_pedersen_gens_with_extension_degree(deg(d));
     let params = RangeParameters::init(bits, cap, pc).map_err(|e| format!("params: {:?}", e))?;
     let mut openings = vec![]; let mut commitments = vec![]; let mut promises = vec![]; let mut first_r = vec![];
@@ -81,8 +82,57 @@ fn make_member(rng: &mut ChaCha12Rng, bits: usize, m: usize, cap: usize, d: usiz
     let seed_nonce = if seed && m == 1 { Some(Scalar::random(rng)) } else { None };
     let statement = RangeStatement::init(params, commitments, promises, seed_nonce).map_err(|e| format!("statement: {:?}", e))?;
     let witness = RangeWitness::init(openings).map_err(|e| format!("witness: {:?}", e))?;
+    Ok((statement, witness, first_r))
+}
+fn make_member(rng: &mut ChaCha12Rng, bits: usize, m: usize, cap: usize, d: usize, seed: bool, promise: Option<u8>, ctx: &'static [u8]) -> Result<Member, String> {
+    let (statement, witness, first_r) = make_statement(rng, bits, m, cap, d, seed, promise)?;
     let proof = o_prove(&mut Transcript::new(ctx), &statement, &witness, rng).map_err(|e| format!("prove: {:?}", e))?;
     Ok(Member { statement, proof, blindings: first_r, seeded: seed && m == 1 })
+}
+// ---- recorded vectors (C19, bounded): proofs serialised by the unchanged tree (`bpp-replay gen-vectors`, committed as replay/vectors.txt) must still be
+// accepted, with the recorded masks, by the current code under the statements rebuilt from the same seeds
+const VECTOR_CONFIGS: &[(usize, usize, usize, usize, bool, Option<u8>)] = &[
+    (8, 1, 1, 1, true, None), (64, 1, 1, 2, true, Some(2)), (4, 2, 2, 1, false, Some(1)), (16, 4, 8, 3, false, None), (2, 8, 8, 1, false, Some(0)),
+    (32, 1, 4, 6, true, Some(1)), (1, 2, 2, 2, false, None), (64, 2, 2, 4, false, Some(2)),
+];
+fn vector_seed(i: usize) -> ChaCha12Rng { ChaCha12Rng::seed_from_u64(0x5eed_0000 + i as u64) }
+fn gen_vectors() -> Result<String, String> {
+    let mut out = String::new();
+    for (i, &(bits, m, cap, d, seed, promise)) in VECTOR_CONFIGS.iter().enumerate() {
+        let mut rng = vector_seed(i);
+        let mem = make_member(&mut rng, bits, m, cap, d, seed, promise, b"wire vectors")?;
+        let hex: String = mem.proof.to_bytes().iter().map(|b| format!("{:02x}", b)).collect();
+        out.push_str(&format!("{} {}\n", i, hex));
+    }
+    Ok(out)
+}
+fn fam_vectors(tag: &str, out: &mut Vec<Case>) {
+    let id = format!("{}:vectors", tag);
+    out.push((id, Box::new(move || {
+        let txt = include_str!("../vectors.txt");
+        let mut n = 0;
+        for line in txt.lines() {
+            let mut it = line.split_whitespace();
+            let (Some(i), Some(hex)) = (it.next(), it.next()) else { continue };
+            let i: usize = i.parse().map_err(|_| "bad vector index".to_string())?;
+            let bytes: Vec<u8> = (0..hex.len() / 2).map(|k| u8::from_str_radix(&hex[2 * k..2 * k + 2], 16).unwrap_or(0)).collect();
+            let (bits, m, cap, d, seed, promise) = VECTOR_CONFIGS[i];
+            let mut rng = vector_seed(i);
+            let (statement, _w, first_r) = make_statement(&mut rng, bits, m, cap, d, seed, promise)?;
+            let proof = o_from_bytes(&bytes).map_err(|e| format!("recorded proof {} is no longer decodable: {:?}", i, e))?;
+            if proof.to_bytes() != bytes { return Err(format!("recorded proof {} re-encodes differently", i)); }
+            let mem = Member { statement, proof, blindings: first_r, seeded: seed && m == 1 };
+            for action in [VerifyAction::VerifyOnly, VerifyAction::RecoverAndVerify, VerifyAction::RecoverOnly] {
+                let mut tr = [Transcript::new(b"wire vectors")];
+                let res = o_verify_batch(&mut tr, &[mem.statement.clone()], &[mem.proof.clone()], action)
+                    .map_err(|e| format!("proof {} recorded on the unchanged tree (bits {}, m {}, degree {}) is no longer accepted ({:?}): {:?}", i, bits, m, d, action, e))?;
+                check_masks(&[mem.clone()], &res, action != VerifyAction::VerifyOnly)?;
+            }
+            n += 1;
+        }
+        if n != VECTOR_CONFIGS.len() { return Err(format!("{} recorded vectors, {} expected", n, VECTOR_CONFIGS.len())); }
+        Ok(())
+    })));
 }
 fn verify(ms: &[Member], action: VerifyAction, ctx: &'static [u8]) -> Result<Vec<Option<ExtendedMask>>, String> {
     let st: Vec<_> = ms.iter().map(|m| m.statement.clone()).collect();
@@ -895,6 +945,7 @@ fn families(prop: &str) -> Vec<Case> {
         "C15" => { fam_codec(prop, &mut v); }
         "C16" => { fam_panics(prop, &mut v); fam_codec(prop, &mut v); fam_batch(prop, &mut v); }
         "C17" => { fam_ctors(prop, &mut v); }
+        "C19" => { fam_vectors(prop, &mut v); }
         _ => {}
     }
     v
@@ -904,7 +955,8 @@ fn esc(s: &str) -> String { s.replace('\\', "\\\\").replace('"', "\\\"").replace
 
 fn main() {
     let args: Vec<String> = std::env::args().collect();
-    if args.len() < 3 { eprintln!("usage: bpp-replay search <Cxx> | run <Cxx> <case-id>"); std::process::exit(2); }
+    if args.len() >= 2 && args[1] == "gen-vectors" { match gen_vectors() { Ok(t) => { print!("{}", t); return; } Err(e) => { eprintln!("{}", e); std::process::exit(1); } } }
+    if args.len() < 3 { eprintln!("usage: bpp-replay search <Cxx> | run <Cxx> <case-id> | fingerprint <Cxx> | gen-vectors"); std::process::exit(2); }
     std::panic::set_hook(Box::new(|_| {}));
     let prop = args[2].as_str();
     if args[1] == "fingerprint" {
